@@ -1,0 +1,15 @@
+//go:build verif
+
+package ast
+
+import "github.com/inspirer/textmapper/parsers/tm"
+
+// VerifBuildTree feeds a listener event stream to the tree builder.
+// Verification hook: compiled only with the "verif" build tag.
+func VerifBuildTree(path, content string, events [][3]int) (*Tree, error) {
+	b := newBuilder(path, content)
+	for _, e := range events {
+		b.addNode(tm.NodeType(e[0]), e[1], e[2])
+	}
+	return b.build()
+}
